@@ -77,7 +77,7 @@ Proof. exact scalar_pushes_one. Qed.
 
 (* The same on statements, loops included: on the executable VM model, started at its first instruction with an
    empty operand stack (of this frame), the code of any statement of the proved fragment (model/VarProg.v:
-   declarations - also inside blocks -, assignments, expression statements, conditionals, condition loops and three-clause loops with
+   declarations - also inside blocks -, assignments, expression statements, conditionals, plain loops, condition loops and three-clause loops with
    break / continue, nested to any depth; the statement itself not inside a loop) - run for however many iterations its loops take, whichever way
    they are left - either stops with an error or continues right after its last
    instruction with exactly one value on the stack if the statement is an expression, and with the stack empty again
